@@ -819,14 +819,6 @@ func (b *Builder) callTerm(v ssa.Value, c *ssa.CallCommon, depth int) *Term {
 				}
 			}
 		}
-		if name == "builtin.len" && len(args) == 1 && args[0].Op == "slice" && len(args[0].Args) >= 3 {
-			// len(x[a:b]) with constant bounds is b − a
-			if lo, ok1 := isConstInt(args[0].Args[1]); ok1 {
-				if hi, ok2 := isConstInt(args[0].Args[2]); ok2 {
-					return mkConst(new(big.Int).Sub(hi, lo), v)
-				}
-			}
-		}
 		return &Term{Op: strings.TrimPrefix(name, "builtin."), V: v, Args: args}
 	}
 	if name == "dynamic" {
